@@ -68,12 +68,13 @@ PROPS = {
         "design_ref": "DESIGN.md §4 C17",
     },
     "C15": {
+        "test_drivers": {"terwaycli.test": "./cmd/terway-cli/"},
         "lean": ["C15"],
         "required": ["C15.c15_bandwidth_total", "C15.c15_bandwidth_unitless", "C15.c15_bandwidth_monotone", "C15.c15_units_ordered", "C15.c15_unit_table", "C15.c15_stored_filter_total", "C15.c15_stored_filter_range_loop_panics"],
         "rule": "(1) parseBandwidth on the product of 32 numeric forms x 28 unit spellings x 3 paddings, plus random well-formed / near-valid / raw-byte / long-digit strings: "
                 "outcome (ok value | err | panic) compared with the Lean model; the value where float64 is exact (< 2^52 and equal to the big.Rat floor), the class elsewhere; "
                 "(2) monotone unit ladders B<K<M<G<T on the implementation; (3) monitor-only fuzz under recover of convertPod + pod-networks parsers, NUMA hints + RequestNetworkIndex, "
-                "MergeConfigAndUnmarshal/Populate/Validate, parseResourceID, BuildIPNet/ToIPSet/ToIPNetSet; (4) stored records (0-5 items, current and old format, attached / vanished interfaces) through the daemon's real start-up filter, outcome (kept items | panic) compared with Model/StoredRec.lean whose loop shape is regenerated from the source. non-trivial = accepted bandwidth value; distinct = distinct op line.",
+                "MergeConfigAndUnmarshal/Populate/Validate, parseResourceID, BuildIPNet/ToIPSet/ToIPNetSet; (4) stored records (0-5 items, current and old format, attached / vanished interfaces) through the daemon's real start-up filter, outcome (kept items | panic) compared with Model/StoredRec.lean whose loop shape is regenerated from the source; (5) 500 / 8000 CNI configuration lists whose terway entry carries values of every JSON kind (null, booleans, numbers, strings, arrays, objects) in the fields terway-cli reads, through both steps of `terway-cli cni` (mergeConfigList, then storeRuntimeConfig; out-of-process test driver of cmd/terway-cli), compared with C20's chain model, monitor: panic. non-trivial = accepted bandwidth value; distinct = distinct op line.",
         "technique": "Lean 4 totality / acceptance / monotonicity theorems over a rune-level model of parseBandwidth (slice panics modelled) with a regenerated guard fact; differential correspondence; recover-based search on other parsers",
         "level_text": "Theorem: for every rune string and every letter/space/upper-case table, parseBandwidth does not panic (given the regenerated fact that the i<0 guard is present); digit strings are accepted as bytes; "
                       "values are monotone in the unit multiplier and the multipliers are ordered. Theorem: no stored record makes the start-up filter (filterENINotFound) index out of range (given the regenerated fact that the loop re-reads the slice length; the range-loop variant is proved to panic on a two-item record). The other user-input parsers (JSON annotations, NUMA hints, ConfigMap merge, stored ids, IP sets) are only searched for panics, not proved: partial.",
